@@ -13,10 +13,14 @@ Lemma tie_add_index_expr : f_svc_add_index_expr = add_index_expr. Proof. reflexi
 Lemma tie_pending_receive : f_pending_receive_text =
   "func (p pendingObject) Receive(m *net.Message, from Channel) error { return ErrObjectNotFound }".
 Proof. reflexivity. Qed.
-(* terminate action -> Service.Remove(own id), error dropped *)
-Lemma tie_object_terminator : f_object_terminator_text =
-  "func objectTerminator(service Service, objectID uint32) func() { return func() { service.Remove(objectID) } }".
-Proof. reflexivity. Qed.
+(* terminate action -> removal of the own index (pinned: whatever lives there; repaired: only itself),
+   error dropped *)
+Lemma tie_object_terminator :
+  f_object_terminator_text =
+    "func objectTerminator(service Service, objectID uint32) func() { return func() { service.Remove(objectID) } }" \/
+  f_object_terminator_text =
+    "func objectTerminator(service *serviceImpl, objectID uint32, obj Actor) func() { return func() { service.removeObject(objectID, obj) } }".
+Proof. first [left; reflexivity | right; reflexivity]. Qed.
 Lemma tie_impl_terminate : f_impl_terminate_text =
   "func (o *objectImpl) Terminate(objectID uint32) error { if objectID != 0 && o.objectID < (1<<31) && objectID != o.objectID { return ErrWrongObjectID } o.terminate() return nil }".
 Proof. reflexivity. Qed.
